@@ -30,8 +30,8 @@ def plan(tier):
     for w in dwtu.WAVES:
         for m in MODES:
             for d in ('analysis', 'synthesis'):
-                units.append({'n': 6, 'wave': w, 'mode': m, 'direction': d})
-    units += [{'n': 1200} for _ in range(16)]
+                units.append({'n': 12, 'wave': w, 'mode': m, 'direction': d})
+    units += [{'n': 4000} for _ in range(16)]
     return units
 
 
